@@ -21,6 +21,7 @@ type FnVal struct {
 
 // Act is one activation (the verified function or an inlined callee).
 type Act struct {
+	siteN int // site assertions emitted so far (obligation numbering)
 	eng      *Engine
 	vc       *VC
 	fn       *ssa.Function
@@ -72,7 +73,28 @@ type writeLog struct {
 	paths map[*Cell][][]int // field paths written inside struct-valued cells (nil entry = whole cell)
 	whole map[*Cell]bool
 	all   bool
+	// when all: were ghost heaps included in every... in some whole-heap havoc, and which struct types were kept by all of them
+	allGhosts bool
+	allExcept []string
 	startN int
+}
+
+// noteAll records a whole-heap havoc (ghosts: ghost heaps included; except: struct types whose fields were kept).
+func (wl *writeLog) noteAll(ghosts bool, except []string) {
+	if !wl.all {
+		wl.all, wl.allGhosts, wl.allExcept = true, ghosts, append([]string(nil), except...)
+		return
+	}
+	wl.allGhosts = wl.allGhosts || ghosts
+	var keep []string
+	for _, x := range wl.allExcept {
+		for _, y := range except {
+			if x == y {
+				keep = append(keep, x)
+			}
+		}
+	}
+	wl.allExcept = keep
 }
 
 func (wl *writeLog) noteCell(c *Cell, path []int) {
@@ -146,7 +168,7 @@ func (wl *writeLog) mergeInto(dst *writeLog) {
 		}
 	}
 	if wl.all {
-		dst.all = true
+		dst.noteAll(wl.allGhosts, wl.allExcept)
 	}
 }
 
@@ -585,9 +607,21 @@ func (a *Act) enterLoop(h *ssa.BasicBlock, st *State, ins []edgeIn) {
 		st.cells[c] = Val{S: nv, Sort: srt, T: c.T}
 	}
 	if wl.all {
-		a.havocAllHeaps(st)
-	} else {
+		// whole-heap havocs in the body: what every one of them keeps (ghosts, excepted struct types) survives the loop
+		// unless it is also written explicitly (handled below)
+		saved := a.writeLog
+		a.writeLog = nil
+		a.havocHeaps(st, wl.allGhosts, wl.allExcept)
+		a.writeLog = saved
+		if saved != nil {
+			saved.noteAll(wl.allGhosts, wl.allExcept)
+		}
+	}
+	{
 		for _, k := range sortedKeys(wl.heaps) {
+			if wl.all && !(keptKey(k, wl.allExcept) || (!wl.allGhosts && strings.HasPrefix(k, "G:"))) {
+				continue // already havocked as a whole
+			}
 			srt := a.vc.heapSorts[k]
 			if !wl.full[k] && len(wl.addrs[k]) > 0 && len(wl.addrs[k]) <= 6 && !strings.HasPrefix(k, "IT:") {
 				// written only at loop-invariant addresses: havoc just those locations
@@ -634,7 +668,7 @@ func (a *Act) havocHeaps(st *State, ghosts bool, except []string) {
 		if strings.HasPrefix(k, "IT:") {
 			continue
 		}
-		if !ghosts && (strings.HasPrefix(k, "G:") || keptKey(k, except)) {
+		if keptKey(k, except) || (!ghosts && strings.HasPrefix(k, "G:")) {
 			continue
 		}
 		st.heap[k] = a.vc.fresh("Hh_"+k, a.vc.heapSorts[k])
@@ -647,7 +681,7 @@ func (a *Act) havocHeaps(st *State, ghosts bool, except []string) {
 	a.vc.gens++
 	st.pushHavoc(havocEv{gen: a.vc.gens, all: ghosts, except: except})
 	if a.writeLog != nil {
-		a.writeLog.all = true
+		a.writeLog.noteAll(ghosts, except)
 	}
 	a.vc.havocAll = true
 }
